@@ -493,6 +493,99 @@ static bool doOpC1617(const std::vector<std::string>& a, std::string& out) {
   return false;
 }
 // END C16 C17
+// BEGIN C11
+// Ops of the C11 check (a rejected text does not disturb what was valid before):
+//   fnid K            function table with the identity of every functor -> fnid=<hexname>~<arity>~<body>~<ptr>;...
+//   ptrace K <hex>    Parser::parse through a line reader that snapshots the context whenever the scanner asks for
+//                     more text (i.e. between tokens, when the text has one token per line); the executable is freed
+//                     -> ok | perr <code> <l>:<c>   then   trace=<reads>@<snap>^<reads>@<snap>...
+//   stepc K J <hex>   the interactive path like `step`, but J := K.clone() is taken before every parseStatement and the
+//                     last statement is traced -> <step result> n=<statements run> trace=... pre=<hex of the dump before the
+//                     last statement> prefn=<hex of its fnid>
+//   snap ::= S<hexname>~<type>~<s><l>;...!E<exec depth>!B<backed symbols>!C<conditions>!F<hexname>~<arity>~<body>~<ptr>;...
+static std::string c11Snap(Context& c) {
+  std::ostringstream o;
+  o << "S";
+  for (size_t i = 0; i < c.verifSymbolCount(); ++i) {
+    const Symbol& s = c.verifSymbolAt(i);
+    if (i) o << ";";
+    o << hexenc(s.name()) << "~" << tyName(s, &s.tuple_decl()) << "~" << (s.safety() ? 1 : 0) << (s.locked() ? 1 : 0);
+  }
+  o << "!E" << c.verifExecDepth() << "!B" << c.verifBackedCount() << "!C" << c.verifConditions() << "!F";
+  bool first = true;
+  for (const auto& e : c.functorManager().declarations()) {
+    if (!first) o << ";"; first = false;
+    o << hexenc(e.functor->name) << "~" << e.functor->params.size() << "~" << (e.functor->body ? 1 : 0)
+      << "~" << std::hex << (uintptr_t)e.functor.get() << std::dec;
+  }
+  return o.str();
+}
+
+static std::string c11Fnid(Context& c) {
+  std::ostringstream o; o << "fnid="; bool first = true;
+  for (const auto& e : c.functorManager().declarations()) {
+    if (!first) o << ";"; first = false;
+    o << hexenc(e.functor->name) << "~" << e.functor->params.size() << "~" << (e.functor->body ? 1 : 0)
+      << "~" << std::hex << (uintptr_t)e.functor.get() << std::dec;
+  }
+  return o.str();
+}
+
+class C11SnapReader : public Parser::StreamReader {
+  std::string text; size_t pos = 0; Context& ctx;
+public:
+  std::vector<std::pair<int, std::string> > trace; std::string last; int reads = 0;
+  C11SnapReader(const std::string& t, Context& c) : text(t), ctx(c) {}
+  void restart() { trace.clear(); last.clear(); reads = 0; }
+  int read(Parser*, char* buf, int max_size) override {
+    std::string s = c11Snap(ctx);
+    if (s != last) { trace.push_back(std::make_pair(reads, s)); last = s; }
+    ++reads;
+    // the line discipline of the library's StringReader
+    int n = 0;
+    while (pos < text.size() && n < max_size) { char ch = text[pos++]; if (ch != '\r') buf[n++] = ch; if (ch == '\n') break; }
+    return n;
+  }
+  std::string traceStr() const {
+    std::string o = "trace=";
+    for (size_t i = 0; i < trace.size(); ++i) { if (i) o.push_back('^'); o += std::to_string(trace[i].first) + "@" + trace[i].second; }
+    return o;
+  }
+};
+
+static std::string c11StepClone(CtxSlot& ks, CtxSlot& js, const std::string& src) {
+  Context& ctx = *ks.ctx;
+  C11SnapReader reader(src, ctx);
+  Parser* p = Parser::createInteractiveParser(ctx, reader);
+  if (!p) return "perr -1";
+  std::string res = "ok-"; int n = 0; std::string pre, prefn;
+  try {
+    for (;;) {
+      Statement* s = nullptr;
+      // the context before the statement about to be parsed: its dump, and an undisturbed twin
+      pre = doDump(ctx); prefn = c11Fnid(ctx);
+      if (js.ctx) { delete js.ctx; js.ctx = nullptr; }
+      if (js.fd < 0) { js.fd = memfd(); js.rd = 0; }
+      js.ctx = ctx.clone(js.fd, js.fd);
+      reader.restart();
+      try { s = p->parseStatement(); }
+      catch (ParseError& pe) {
+        if (pe.no == EXC_PARSE_EOF) break;
+        res = perr(pe); break;
+      }
+      if (s == nullptr) { if (p->state() == Parser::Aborted) break; continue; }
+      try {
+        std::list<const Statement*> l; l.push_back(s);
+        Executable::run(ctx, l);
+        delete s; ++n;
+      } catch (RuntimeError& re) { delete s; res = rerr(re); break; }
+      if (ctx.returnCondition()) { res = retValue(ctx); ctx.returnCondition(false); break; }
+    }
+  } catch (...) { delete p; throw; }
+  delete p;
+  return res + " n=" + std::to_string(n) + " " + reader.traceStr() + " pre=" + hexenc(pre) + " prefn=" + hexenc(prefn);
+}
+// END C11
 
 static std::string doOp(const std::string& op) {
   std::vector<std::string> a = split(op, ' ');
@@ -679,13 +772,26 @@ static std::string doOp(const std::string& op) {
   // BEGIN C16 C17
   { std::string r; if (doOpC1617(a, r)) return r; }
   // END C16 C17
+// BEGIN C11
+  if (cmd == "fnid") return c11Fnid(*K(1).ctx);
+  if (cmd == "ptrace") {
+    Context& c = *K(1).ctx; C11SnapReader reader(hexdec(a.at(2)), c);
+    std::string r;
+    try { Executable* x = Parser::parse(c, reader); delete x; r = "ok"; }
+    catch (ParseError& pe) { r = perr(pe); }
+    return r + " " + reader.traceStr();
+  }
+  if (cmd == "stepc") return c11StepClone(K(1), K(2), hexdec(a.at(3)));
+  // END C11
   return "badop";
 }
 
 static std::string g_caseid;
+static char g_alarm_msg[512];
+static size_t g_alarm_len = 0;
 static void onAlarm(int) {
-  std::string m = g_caseid + " diverges\n";
-  ssize_t n = write(1, m.data(), m.size()); (void)n;
+  /* async-signal-safe: the message was prepared when the case started (no allocation here) */
+  ssize_t n = write(1, g_alarm_msg, g_alarm_len); (void)n;
   _exit(3);
 }
 
@@ -698,6 +804,7 @@ int main(int argc, char** argv) {
     if (line.empty()) continue;
     size_t sp = line.find(' ');
     g_caseid = line.substr(0, sp);
+    g_alarm_len = (size_t)snprintf(g_alarm_msg, sizeof(g_alarm_msg), "%.480s diverges\n", g_caseid.c_str());
     std::string rest = sp == std::string::npos ? "" : line.substr(sp + 1);
     alarm(tmo);
     std::string out;
